@@ -68,7 +68,8 @@ def run(R, job):
     # constructor validation and single-item normalisation
     D = core.HTMLDependency
     bad = [dict(source="x"), dict(source={"package": "p"}), dict(script="s.js"), dict(script=[{"src": "a.js"}, "b.js"]), dict(script={"href": "x"}),
-           dict(stylesheet={"src": "x"}), dict(stylesheet=[1]), dict(meta={"name": "n"}), dict(meta={"content": "c"}), dict(meta=[{"name": "n", "content": "c"}, {}])]
+           dict(stylesheet={"src": "x"}), dict(stylesheet=[1]), dict(meta={"name": "n"}), dict(meta={"content": "c"}), dict(meta=[{"name": "n", "content": "c"}, {}]),
+           dict(script={}), dict(stylesheet={}), dict(meta={}), dict(script=[{}]), dict(script=0)]
     for kw in bad:
         checked += 1
         try:
